@@ -461,17 +461,85 @@ def run_config_source(cfg, source, res):
         env.close()
 
 
+def check_oversize(res):
+    """Failure source 'the code does not fit the .p8.png code area' - raised by the encoder itself, in both storage
+    variants (text that compresses / text that does not), through to_file and `p8tool build`, destination absent /
+    present: the call fails and the destination (and its directory) is as before."""
+    from pico8 import tool
+    from pico8.game import file as p8file
+    from props import c13
+    v, body = 7, bytearray()
+    while len(body) < 30000:
+        v = (v * 1103515245 + 12345) & 0x7fffffff
+        line = bytearray()
+        for i in range(60):
+            v = (v * 1103515245 + 12345) & 0x7fffffff
+            line.append(65 + (v >> 16) % 26)
+        body += b'D="' + bytes(line) + b'"\n'
+    texts = {'incompressible': bytes(body), 'compressible': b''.join(b'x%d=%d*%d+%d\n' % (i, i * 7, i + 3, i * i) for i in range(3200))}
+    for variant, code in texts.items():
+        for entry in ('to_file', 'build'):
+            for dest in ('absent', 'present', 'empty'):
+                d = tempfile.mkdtemp(prefix='c11big_')
+                try:
+                    out = os.path.join(d, 'out.p8.png')
+                    before = None
+                    if dest == 'present':
+                        before = c13.ref_png(carts.region_fills(2, 6), b'-- old\nold=1\n', c13.label_rows())
+                    elif dest == 'empty':
+                        before = b''
+                    if before is not None:
+                        open(out, 'wb').write(before)
+                    big = os.path.join(d, 'big.lua')
+                    open(big, 'wb').write(code)
+                    listing = sorted(os.listdir(d))
+                    res.evaluations += 1
+                    res.transitions += 1
+                    res.nontriv(('oversize', variant, entry, dest))
+                    case = {'oversize': True, 'variant': variant, 'entry': entry, 'dest': dest}
+                    try:
+                        if entry == 'to_file':
+                            g = carts.make_game(carts.region_fills(1, 5), version=33, code_lines=[code])
+                            p8file.to_file(g, out)
+                            failed = False
+                        else:
+                            failed = tool.main(['--quiet', 'build', out, '--lua', big]) != 0
+                    except BaseException as e:
+                        if isinstance(e, KeyboardInterrupt):
+                            raise
+                        failed = True
+                    after = open(out, 'rb').read() if os.path.exists(out) else None
+                    if not failed:
+                        res.violation('C11|oversize-accepted|%s|%s' % (entry, variant),
+                                      '%s of %d bytes of %s code to a .p8.png returned normally (destination %s -> %s bytes)' % (
+                                          entry, len(code), variant, None if before is None else len(before), None if after is None else len(after)), case)
+                    elif after != before:
+                        res.violation('C11|destination-%s|%s|png|code-too-large|%s' % ('created' if before is None else 'deleted' if after is None else 'overwritten', entry, variant),
+                                      '%s failed (code too large, %s) and the %s destination was changed' % (entry, variant, dest), case)
+                    elif sorted(os.listdir(d)) != listing:
+                        res.violation('C11|stray-files|%s|png|code-too-large' % entry, '%s failed and left files %r' % (
+                            entry, sorted(set(os.listdir(d)) - set(listing))), case)
+                    else:
+                        res.outcome((entry, 'png', 'code-too-large', variant))
+                finally:
+                    shutil.rmtree(d, ignore_errors=True)
+
+
 def shards(tier, seed):
-    items = []
+    items = [('oversize',)]
     for cfg in configurations(tier):
         for source in sources_for(cfg[1]):
             items.append(('cs', cfg, source))
-    items.sort(key=lambda it: 0 if it[2] in ('stream-write', 'section:gfx', 'section:label') else 1)
+    items.sort(key=lambda it: 0 if len(it) > 2 and it[2] in ('stream-write', 'section:gfx', 'section:label') else 1)
     return items
 
 
 def run_shard(item):
     res = ShardResult()
+    if item[0] == 'oversize':
+        check_oversize(res)
+        res.sample({'oversize': 'to_file / build of 30 000 bytes of incompressible code to a .p8.png'})
+        return res
     _, cfg, source = item
     run_config_source(tuple(cfg), source, res)
     if source == 'stream-write' and cfg[0] == 'to_file':
@@ -481,5 +549,8 @@ def run_shard(item):
 
 def replay(case):
     res = ShardResult()
+    if case.get('oversize'):
+        check_oversize(res)
+        return [(s, v[0]) for s, v in res.violations.items()]
     run_config_source(tuple(case['cfg']), case['source'], res)
     return [(s, v[0]) for s, v in res.violations.items()]
